@@ -576,14 +576,18 @@ def parse_block(lines):
             ent = [s[len("@after "):].strip(), []]
             blk["after"].append(ent)
             cur = ent[1]
-        elif s.startswith("@rewrite ") or s.startswith("@sig ") or s.startswith("@rewrite-all ") or s.startswith("@rewrite-re "):
+        elif s.startswith("@rewrite ") or s.startswith("@sig ") or s.startswith("@rewrite-all ") or s.startswith("@rewrite-re ") or s.startswith("@rewrite-re? "):
+            # `@rewrite-re?`: a shape rule that applies wherever the shape occurs (zero occurrences allowed)
+            optional = s.startswith("@rewrite-re? ")
+            if optional:
+                s = "@rewrite-re " + s[len("@rewrite-re? "):]
             key = "sig" if s.startswith("@sig ") else "rewrites"
             body = s.split(" ", 1)[1]
             sep = "==>>" if "==>>" in body else "=>"
             if sep not in body:
                 raise ExtractError("bad-template", f"rewrite without => : {s}")
             a, b = body.split(sep, 1)
-            blk[key].append({"from": a.strip(), "to": b.strip(), "reason": "", "all": s.startswith("@rewrite-all ") or s.startswith("@rewrite-re "), "re": s.startswith("@rewrite-re ")})
+            blk[key].append({"from": a.strip(), "to": b.strip(), "reason": "", "all": s.startswith("@rewrite-all ") or s.startswith("@rewrite-re "), "re": s.startswith("@rewrite-re "), "optional": optional})
             cur = None
         elif s.startswith("@reason "):
             tgt = blk["rewrites"] if blk["rewrites"] else blk["sig"]
@@ -605,6 +609,8 @@ def apply_rewrites(text, rewrites, log, what):
         pat = re.compile(rw["from"]) if rw.get("re") else ws_pattern(rw["from"])
         # match on the original text but only at positions that are code in the mask
         hits = [h for h in pat.finditer(mask_comments(text)) if m[h.start()] == text[h.start()]]
+        if rw.get("optional") and not hits:
+            continue
         if rw.get("all"):
             if not hits:
                 raise ExtractError("rewrite-miss", f"{what}: rewrite-all source `{rw['from']}` does not occur")
@@ -616,6 +622,29 @@ def apply_rewrites(text, rewrites, log, what):
             repl = to.replace("\\n", "\x01") + "\n" * seg.count("\n")
             text = text[:h.start()] + repl + text[h.end():]
         log.append(f"REWRITE{' (all %d sites)' % len(hits) if rw.get('all') else ''} `{rw['from']}` => `{rw['to']}`" + (f" [{rw['reason']}]" if rw["reason"] else ""))
+    return text
+
+
+# Rule E19 (idiom table): std API shapes Verus has no specification mechanism for (they return a borrow of the
+# container's interior) are mapped, wherever they occur in a function under contract, to a trusted helper of the prelude
+# (prelude/idioms.rs) whose body is the original expression.  Optional: applied only where the shape occurs, so that a
+# realistic edit introducing the idiom is decided instead of ending as "unsupported construct".
+IDIOMS = [
+    (r"([A-Za-z_][\w.]*)\s*\.entry\(([^()]*(?:\([^()]*\))?[^()]*)\)\s*\.or_insert\(([^()]*(?:\([^()]*\))?[^()]*)\);",
+     r"map_entry_or_insert(&mut \1, \2, \3);", "HashMap::entry(k).or_insert(v) as a statement"),
+]
+
+
+def apply_idioms(text, log):
+    for pat, to, why in IDIOMS:
+        rx = re.compile(pat)
+        m = mask(text)
+        hits = [h for h in rx.finditer(mask_comments(text)) if m[h.start()] == text[h.start()]]
+        for h in reversed(hits):
+            seg = text[h.start():h.end()]
+            text = text[:h.start()] + h.expand(to) + "\n" * seg.count("\n") + text[h.end():]
+        if hits:
+            log.append(f"E19 idiom ({why}) -> trusted helper, {len(hits)} site(s)")
     return text
 
 
@@ -761,6 +790,8 @@ def transform_fn(text, opts, blk, log, what, in_trait_impl):
     sig = apply_rewrites(sig, blk["sig"], log, what)
     # body annotations
     body = apply_rewrites(body, blk["rewrites"], log, what)
+    if "external_body" not in opts and body is not None:
+        body = apply_idioms(body, log)
     # loops: process from last to first so offsets stay valid
     if blk["loopends"]:
         # ghost text right before the closing brace of the N-th loop's body (processed last-to-first)
